@@ -48,7 +48,31 @@ var twoM52 = new(big.Rat).SetFrac(big.NewInt(1), new(big.Int).Lsh(big.NewInt(1),
 
 // genNumeric draws a numeric list. class: 0 exact (small ints and dyadic fractions), 1 general, 2 extreme ints, 3 product-friendly
 func genNumeric(r *rng.R) (vals []any, class int) {
-	n := []int{1, 1, 2, 3, 5, 8, 13, 30, r.Range(1, 30), r.Range(1, 30), 64, 200}[r.Intn(12)]
+	if r.Chance(1, 12) {
+		// class 4: factors of magnitude >= 1 whose product certainly leaves the float64 range
+		n := r.Range(3, 12)
+		vals = make([]any, n)
+		for i := range vals {
+			f := math.Pow(10, float64(r.Range(60, 200))) * (1 + r.Float01())
+			if r.Chance(1, 3) {
+				f = -f
+			}
+			vals[i] = f
+			if r.Chance(1, 5) {
+				vals[i] = i64(1<<40) * (1 - 2*r.Intn(2))
+			}
+		}
+		// make sure of the overflow: the first six factors alone exceed 1e360
+		for i := 0; i < 3 && i < n; i++ {
+			if f, ok := vals[i].(float64); ok && math.Abs(f) < 1e120 {
+				vals[i] = math.Copysign(1e150, f)
+			} else if !ok {
+				vals[i] = 1e150
+			}
+		}
+		return vals, 4
+	}
+	n := []int{1, 1, 2, 3, 5, 8, 13, 30, r.Range(1, 30), r.Range(1, 30), 64, 200, r.Range(1, 30), []int{513, 1025, 5000}[r.Intn(3)]}[r.Intn(14)]
 	class = r.Intn(4)
 	mode := r.Intn(5) // 0 ints, 1 floats, 2.. mixed
 	neg := r.Chance(1, 4)
@@ -67,6 +91,13 @@ func genNumeric(r *rng.R) (vals []any, class int) {
 				vals[i] = int(int32(r.U64()))
 			} else {
 				vals[i] = (r.Float01() - 0.5) * math.Pow(10, float64(r.Range(-6, 12)))
+				if mode == 1 && r.Chance(1, 4) {
+					// floats far outside the int range (all of one sign in some lists)
+					vals[i] = (1 + r.Float01()) * math.Pow(10, float64(r.Range(19, 290)))
+					if neg || r.Chance(1, 4) {
+						vals[i] = -vals[i].(float64)
+					}
+				}
 			}
 		case 2:
 			if isInt {
@@ -228,13 +259,16 @@ func c18NumericHist(c *fw.Ctx, l at.List, vals []any, class int, depth int, rr u
 		allNeg := true
 		exactSum, exactProd, sumAbs := new(big.Rat), big.NewRat(1, 1), new(big.Rat)
 		mn, mx := math.Inf(1), math.Inf(-1)
+		wantProd := (class == 0 || class == 3) && n <= 40
 		for _, v := range vals {
 			f := toF(v)
 			if f >= 0 {
 				allNeg = false
 			}
 			exactSum.Add(exactSum, ratOf(f))
-			exactProd.Mul(exactProd, ratOf(f))
+			if wantProd {
+				exactProd.Mul(exactProd, ratOf(f))
+			}
 			a := ratOf(math.Abs(f))
 			sumAbs.Add(sumAbs, a)
 			if f < mn {
@@ -284,7 +318,25 @@ func c18NumericHist(c *fw.Ctx, l at.List, vals []any, class int, depth int, rr u
 			}
 		}
 		// Prod: relative forward error (n-1) * 2^-53 (doubled), only where no ordering can overflow or underflow
-		if class == 0 || class == 3 {
+		if class == 4 {
+			// overflowing product of factors with magnitude >= 1 and no zero: in every evaluation order the partial
+			// products only grow, so the result is an infinity whose sign is the parity of the negative factors
+			negs := 0
+			for _, v := range vals {
+				if toF(v) < 0 {
+					negs++
+				}
+			}
+			want := math.Inf(1)
+			if negs%2 == 1 {
+				want = math.Inf(-1)
+			}
+			c.Count("overflowing_products_checked")
+			if prod != want {
+				c.Violate("aggregate-wrong:Prod", in(), fmt.Sprint(want), fmt.Sprint(prod))
+			}
+		}
+		if wantProd {
 			ep, _ := exactProd.Float64()
 			absP := new(big.Rat).Abs(exactProd)
 			tolP := new(big.Rat).Mul(new(big.Rat).Mul(nn, twoM52), absP)
@@ -295,7 +347,7 @@ func c18NumericHist(c *fw.Ctx, l at.List, vals []any, class int, depth int, rr u
 					safe = false
 				}
 			}
-			if safe && n <= 30 && !within(prod, exactProd, tolP) {
+			if safe && !within(prod, exactProd, tolP) {
 				c.Violate("aggregate-wrong:Prod", in(), fmt.Sprint(ep), fmt.Sprint(prod))
 			}
 			if safe {
